@@ -419,6 +419,11 @@ func c48(sum *lib.Summary) {
 		"default destruction event; distinct = distinct (type id, field values)"
 	distinct := map[string]bool{}
 	corpus(sum)
+	nref := 250
+	if *tier == "thorough" {
+		nref = 3000
+	}
+	refStage(sum, &gen{r: lib.NewRng(*seed ^ 0x5eed)}, nref)
 	for pi := 0; pi < nprog; pi++ {
 		p := g.program(pi == 0, pi == 1)
 		srcA, srcB := p.contractA(), p.contractB()
